@@ -186,6 +186,10 @@ static void run(Src &s) {
         econf_newKeyFile(&partner, '=', '#');
         econf_setStringValue(partner, "A", "k1", "Partner");
         econf_setStringValue(partner, nullptr, "k2", "P2");
+        // the partner defines some of the object's own (section, key) pairs, so that values really override each other
+        for (size_t pk = 0; pk < keys.size() && pk < 12; pk++)
+          if (s.chance(60))
+            econf_setStringValue(partner, keys[pk].first.empty() ? nullptr : keys[pk].first.c_str(), keys[pk].second.c_str(), s.chance(20) ? "" : "PartnerValue");
         std::string pb = dump_all(partner, "p0.out");
         econf_file *r = nullptr;
         e = q == 22 ? econf_mergeFiles(&r, kf, partner) : econf_mergeFiles(&r, partner, kf);
